@@ -101,6 +101,7 @@ func newErrorHandler(failOnErrorFlag string) (*parseErrorHandler, error) {
 			for key := range failOnErrorPredicates {
 				supportedValues = append(supportedValues, key)
 			}
+			sort.Strings(supportedValues) // map iteration order is random
 			return nil, fmt.Errorf("ruleguard init error: 'failOnError' flag '%s' is invalid. It must be a comma-separated list and supported values are '%s'",
 				k, strings.Join(supportedValues, ","))
 		}
